@@ -218,8 +218,17 @@ impl Archive {
         let mut blocks = HashSet::new();
         for band_id in band_ids {
             let band = Band::open(&archive, *band_id).await?;
-            let mut iter = band.index().iter_available_hunks().await;
-            while let Some(hunk) = iter.next().await {
+            let mut index = band.index();
+            // Every hunk that is present must be read: if one were skipped, the blocks it
+            // references would look unreferenced and could be deleted.
+            for hunk_number in index.hunks_available().await? {
+                let hunk = index.read_hunk(hunk_number).await?.ok_or_else(|| {
+                    Error::InvalidMetadata {
+                        details: format!(
+                            "Index hunk {hunk_number} of {band_id} is listed but can't be read"
+                        ),
+                    }
+                })?;
                 for addr in hunk.into_iter().flat_map(|entry| entry.addrs) {
                     blocks.insert(addr.hash);
                     task.increment(1);
